@@ -232,6 +232,7 @@ func runHistory(run *vk.Run, idx uint64) {
 	var wg sync.WaitGroup
 	var kickWG sync.WaitGroup
 	var nonOpOverCap atomic.Int64
+	var opless atomic.Bool
 	stopSampler := make(chan struct{})
 	// sampler: the number of non-operator members never exceeds max-clients
 	var samplerWG sync.WaitGroup
@@ -315,6 +316,13 @@ func runHistory(run *vk.Run, idx uint64) {
 						joinedC = c
 						return output{OK: true}
 					})
+					if out.OK && !isOp && cfg.Autolock && !joinedC.toldAnOperator() {
+						// while no operator is present an autolock group is locked (it starts locked,
+						// is locked again together with the removal of its last operator, and only a
+						// present operator can unlock it): a non-operator can only be admitted while
+						// an operator is a member, and AddClient tells it about every member
+						opless.Store(true)
+					}
 					if out.OK {
 						mine = append(mine, joinedC)
 					} else if id == c.id && !containsClient(mine, id) {
@@ -403,6 +411,9 @@ func runHistory(run *vk.Run, idx uint64) {
 		run.Count("checker_timeouts", 1)
 	default:
 		run.Count("histories_linearizable", 1)
+	}
+	if opless.Load() {
+		run.Violation("non-operator-admitted-to-operatorless-autolock-group", "a non-operator was admitted to an autolock group at a moment when no operator was a member (it was told about no operator when it joined)", replay)
 	}
 	if n := nonOpOverCap.Load(); n > 0 {
 		run.Violation("non-operators-exceed-max-clients", fmt.Sprintf("%d non-operator members were seen in a group with max-clients %d", n, cfg.Max), replay)
@@ -572,30 +583,27 @@ func observeThenJoin(run *vk.Run, idx uint64) {
 	rec.do(0, input{Op: "join", ID: op.id, IsOp: true}, func() output { return output{OK: true} })
 	rec.do(0, input{Op: "unlock"}, func() output { return output{} })
 	var wg sync.WaitGroup
+	var opless atomic.Bool
+	var leaveDone atomic.Bool
 	wg.Add(2)
 	go func() {
 		defer wg.Done()
+		time.Sleep(time.Duration(idx%7) * 100 * time.Microsecond)
 		rec.do(1, input{Op: "leave", ID: op.id}, func() output {
 			group.DelClient(op)
 			op.setGroup(nil)
 			return output{}
 		})
+		leaveDone.Store(true)
 	}()
-	go func() {
-		defer wg.Done()
-		vsync.SetQuiet(true)
-		defer vsync.SetQuiet(false)
-		for k := 0; k < 200000; k++ {
-			var ids []string
-			out := rec.do(2, input{Op: "members?"}, func() output {
-				for _, c := range g.GetClients(nil) {
-					ids = append(ids, c.Id())
-				}
-				return output{Members: membersString(ids)}
-			})
-			if out.Members == "" {
-				c := &fakeClient{id: name + "-nop-1"}
-				rec.do(2, input{Op: "join", ID: c.id}, func() output {
+	for j := 0; j < 2; j++ {
+		wg.Add(1)
+		go func(j int) {
+			defer wg.Done()
+			for k := 0; k < 60; k++ {
+				after := leaveDone.Load()
+				c := &fakeClient{id: fmt.Sprintf("%s-nop-%d-%d", name, j, k)}
+				out := rec.do(2+j, input{Op: "join", ID: c.id}, func() output {
 					gg, err := group.AddClient(name, c, group.ClientCredentials{Username: strp("guest"), Password: "x"})
 					if err != nil {
 						return output{OK: false, Err: err.Error()}
@@ -603,19 +611,53 @@ func observeThenJoin(run *vk.Run, idx uint64) {
 					c.setGroup(gg)
 					return output{OK: true}
 				})
-				return
+				if out.OK {
+					if !c.toldAnOperator() {
+						opless.Store(true)
+					}
+					rec.do(2+j, input{Op: "leave", ID: c.id}, func() output {
+						group.DelClient(c)
+						c.setGroup(nil)
+						return output{}
+					})
+				}
+				if after {
+					return
+				}
 			}
+		}(j)
+	}
+	go func() {
+		defer wg.Done()
+		vsync.SetQuiet(true)
+		defer vsync.SetQuiet(false)
+		for k := 0; k < 200000 && !leaveDone.Load(); k++ {
+			var ids []string
+			rec.do(9, input{Op: "members?"}, func() output {
+				for _, c := range g.GetClients(nil) {
+					ids = append(ids, c.Id())
+				}
+				return output{Members: membersString(ids)}
+			})
 		}
 	}()
 	wg.Wait()
-	// keep only the last few reads: thousands of identical reads add nothing
+	if opless.Load() {
+		run.Violation("non-operator-admitted-to-operatorless-autolock-group", "while the last operator of an autolock group was leaving, a non-operator was admitted at a moment when no operator was a member (it was told about no operator when it joined): the group was not locked again before that join was evaluated", map[string]any{"observe_then_join_index": idx})
+	}
+	// thin out the reads: thousands of identical reads add nothing
 	ops := rec.ops
-	if len(ops) > 40 {
+	if len(ops) > 60 {
 		var keep []porcupine.Operation
-		for i, o := range ops {
-			if o.Input.(input).Op != "members?" || i >= len(ops)-6 {
-				keep = append(keep, o)
+		reads := 0
+		for _, o := range ops {
+			if o.Input.(input).Op == "members?" {
+				reads++
+				if reads%((len(ops)/30)+1) != 0 {
+					continue
+				}
 			}
+			keep = append(keep, o)
 		}
 		ops = keep
 	}
